@@ -179,7 +179,7 @@ func genScenario(r *rand.Rand, num int, allowClone bool, cancel bool) scenario {
 	sc.Prior = []string{"absent", "empty", "garbage", "longer", "shorter", "older", "complete", "absent"}[r.Intn(8)]
 	ns := r.Intn(3)
 	for i := 0; i < ns; i++ {
-		kind := []string{"consistent", "consistent", "stale", "truncated", "emptyindex", "alias", "consistent"}[r.Intn(7)]
+		kind := []string{"consistent", "consistent", "stale", "truncated", "emptyindex", "alias", "consistent", "deleted"}[r.Intn(8)]
 		if kind == "alias" && (sc.Prior == "absent" || sc.Prior == "empty") {
 			kind = "consistent"
 		}
@@ -190,6 +190,16 @@ func genScenario(r *rand.Rand, num int, allowClone bool, cancel bool) scenario {
 			}
 		}
 		sc.Seeds = append(sc.Seeds, seedSpec{Kind: kind})
+	}
+	// a family of its own: the previous version of the target is updated in place with itself as the seed, on a filesystem
+	// that clones blocks, with chunks of at least a block (the in-place upgrade of an image)
+	if allowClone && num%12 == 0 {
+		sc.Blocky, sc.Clone, sc.Prior = true, true, "older"
+		sc.Seeds = []seedSpec{{Kind: "alias"}}
+		if k == 0 {
+			sc.Idx = randIDs(r, 3+r.Intn(4), 3, false)
+		}
+		ns = 1
 	}
 	if ns > 0 && r.Intn(4) == 0 {
 		sc.MutAt = r.Intn(60)
@@ -311,6 +321,9 @@ func run(sc *scenario, dir string, tw *trace.Writer) result {
 		seeds = append(seeds, fs)
 		seedFiles = append(seedFiles, file)
 		seedIdx = append(seedIdx, si)
+		if sp.Kind == "deleted" { // the seed's file disappears after its index was loaded
+			os.Remove(file)
+		}
 		fb, _ := os.ReadFile(file)
 		sp.Actual = w.classify(fb, si)
 	}
